@@ -4,7 +4,10 @@ import (
 	"errors"
 	"flag"
 	"fmt"
+	"io"
 	"math/rand"
+	"net"
+	"os"
 
 	"github.com/ClickHouse/ch-go/proto"
 
@@ -18,6 +21,7 @@ func init() { subcmds["writer"] = writerMain }
 type recWriter struct {
 	limit int
 	got   []byte
+	fails int
 }
 
 var errInjected = errors.New("injected write failure")
@@ -36,6 +40,17 @@ func (r *recWriter) Write(p []byte) (int, error) {
 		room = 0
 	}
 	r.got = append(r.got, p[:room]...)
+	// the class of the failure must not matter to what the writer keeps: generic, time-out (an expired write deadline),
+	// short write and closed-pipe errors take turns
+	r.fails++
+	switch r.fails % 4 {
+	case 1:
+		return room, &net.OpError{Op: "write", Net: "sim", Err: os.ErrDeadlineExceeded}
+	case 2:
+		return room, io.ErrShortWrite
+	case 3:
+		return room, io.ErrClosedPipe
+	}
 	return room, errInjected
 }
 
